@@ -657,3 +657,46 @@ mut("c11-header-answers-stale-abort", "C11", RQ,
                 return Continue((&mut data[fcgi::RecordHeader::LEN..], skip));
             },""",
     "R11.6/header/abort-row", "second EndRequest for an already finished request")
+
+# ---- C18 -------------------------------------------------------------------------------------------------
+mut("c18-assign-before-order-test", "C18", ST,
+    """        if let Some(s) = stream {
+            if cmp_input_streams(self.request.role, s, self.stream) == Ordering::Less {
+                return Err(SequenceError { role: self.request.role, new: s, old: self.stream });
+            }
+        }
+        if stream != self.stream {""",
+    """        let old = std::mem::replace(&mut self.stream, stream);
+        if let Some(s) = stream {
+            if cmp_input_streams(self.request.role, s, old) == Ordering::Less {
+                return Err(SequenceError { role: self.request.role, new: s, old });
+            }
+        }
+        if stream != old {""",
+    "R18.", "a rejected selection has already changed the active stream")
+mut("c18-skip-discard", "C18", ST,
+    """            self.discard_stream();
+            self.stream = stream;""",
+    """            self.stream = stream;""",
+    "R18.2/set_stream/change", "buffered data of the old stream is delivered as the new stream's")
+mut("c18-less-means-stream", "C18", ST,
+    """                    // Skip earlier streams
+                    Ordering::Less => State::Skip,""",
+    """                    // Skip earlier streams
+                    Ordering::Less => State::Stream,""",
+    "R18.3/stream/earlier-stream", "data of an earlier stream is delivered")
+mut("c18-filter-has-no-second-stream", "C18", PF,
+    """            (Self::Filter, Some(Stdin)) => Some(Data),""",
+    """            (Self::Filter, Some(Stdin)) => None,""",
+    "R18.1/next_input_stream", "Filter's Data stream can never become active")
+mut("c18-async-ignores-verdict", "C18", A,
+    """        self.parser.set_stream(Some(stream))
+            .expect("streams should follow the order given by Role::input_streams");""",
+    """        let _ = self.parser.set_stream(Some(stream));""",
+    "R18.5", "out-of-order selection silently ignored")
+mut("c18-same-stream-discards", "C18", ST,
+    """        if stream != self.stream {
+            if matches!(self.state, State::Stream) {""",
+    """        if stream.is_some() {
+            if matches!(self.state, State::Stream) {""",
+    "R18.2", "re-selecting the current stream drops buffered data")
